@@ -1,6 +1,5 @@
 import Proofs.FillPackets
-import Proofs.Tie.Encode
-import Proofs.Tie.Enc
+import Proofs.EncodeFields
 import Proofs.RenderInv
 import Mq.Stream
 /-!
